@@ -166,7 +166,8 @@ def make_data(rng: random.Random, hostile: float = 0.1, drop: float = 0.1) -> di
         ],
         "h": {"a": rng.choice(V.FRIENDLY_INT), "b": rng.choice(V.FRIENDLY_STR), "k": [1, 2, 3][: rng.randint(0, 3)]},
         "d": {"a": {"b": [1, 2, {"c": "deep"}]}, "list": ["p", "q", "r"], "x y": 1, "size": 99, "s": "key", "2024": "Y", "7-1": "Z", "a-b": "AB", "": "E", "a.b": "DOT",
-              "first": "F1", "1st": "ST", "é": "U"},
+              "first": "F1", "1st": "ST", "é": "U", "if": "KIF", "and": "KAND", "true": "KTRUE", "empty": "KEMPTY", "in": ["KIN"], "with": "KWITH", "contains": "KCONT",
+              "nil": "KNIL", "not": {"x": "KNOT"}, "for": "KFOR", "as": "KAS", "blank": "KBLANK", "or": "KOR", "else": "KELSE"},
     }
     for k in list(d):
         r = rng.random()
@@ -174,6 +175,7 @@ def make_data(rng: random.Random, hostile: float = 0.1, drop: float = 0.1) -> di
             del d[k]
         elif r < drop + hostile:
             d[k] = V.random_value(rng, 0, hostile=0.7)
+    d["true"], d["empty"], d["nil"], d["blank"] = "RTRUE", "REMPTY", "RNIL", "RBLANK"  # root names spelled like literals (bracket notation only)
     d["r1"] = rng.choice([0, 1, 2, 3, 5, -1])
     d["r2"] = rng.choice([0, 1, 2, 4, 7])
     return d
@@ -324,7 +326,9 @@ class Gen:
             segs = self.ch(
                 [".a.b[0]", ".a.b[2].c", ".list[1]", ".list.first", ".list.last", ".list.size", "['x y']", ".size",
                  ".a.b.size", ".list[-1]", ".list[n]", "[s]", "[t]", ".a['b'][1]", '["list"][0]', ".nope", ".a.nope.x", ".list[9]",
-                 "['2024']", '["7-1"]', "['a-b']", ".a-b", "['']", "['a.b']", ".first", "['first']", "['1st']", "['é']", ".é", "['size']", "['0']", "[' ']"]
+                 "['2024']", '["7-1"]', "['a-b']", ".a-b", "['']", "['a.b']", ".first", "['first']", "['1st']", "['é']", ".é", "['size']", "['0']", "[' ']",
+                 # keys spelled like keywords of the expression language: only reachable in bracket notation
+                 "['if']", "['and']", "['true']", "['empty']", "['in']", "['with']", "['contains']", "['nil']", "['not'].x", "['for']", "['as']", "['blank']", "['or']", "['else']"]
             )
             self.meta.roots.update({"n", "s", "t"} & set(segs.replace("[", " ").replace("]", " ").split()))
             return "d" + segs if root == "d" else root + self.ch([".a", ".b", ".k", "[0]", ".size", ".first", ".last", "[-1]", ".title", "['a']", ".k[0]"])
@@ -339,7 +343,7 @@ class Gen:
         if root in STR_VARS:
             return root + self.ch(["", "", ".size", ".first", "[0]"])
         if self.cfg.weird_paths and self.p(0.15):
-            w = self.ch([f'["{root}"]', f"['{root}']", f"[ '{root}' ]"])
+            w = self.ch([f'["{root}"]', f"['{root}']", f"[ '{root}' ]", "['true']", "['empty']", "['nil']", "['blank']"])
             return w
         if self.cfg.weird_paths and self.p(0.03):
             return "[s]"
@@ -430,6 +434,12 @@ class Gen:
             return self.primitive("any")
         if r < 0.5:
             k = self.ch(["n", "s"])
+            if self.cfg.parens and self.p(0.15):
+                # a parenthesised logical expression as an operand of a comparison
+                grp = f"({self.primitive('any')} {self.ch(['and', 'or'])} {self.primitive('any')})"
+                other = self.primitive("any")
+                op = self.ch(["==", "!="])
+                return f"{grp} {op} {other}" if self.p(0.5) else f"{other} {op} {grp}"
             return f"{self.primitive(k)} {self.ch(['==', '!=', '<', '>', '<=', '>=', '<>'])} {self.primitive(k)}"
         if r < 0.65:
             return f"{self.primitive('any')} {self.ch(['==', '!='])} {self.ch(['empty', 'blank', 'nil', 'true', 'false', self.literal()])}"
